@@ -416,3 +416,26 @@ theorem clone_user_by_hash_last_wins (E : Ext) (ov : Bool) (N : Nat) (k hh : Lis
   · simp [Ss.findUser]
 
 end Octo.DispatchGen
+
+/-! ## the guards of the client's `main` -/
+
+namespace Octo.DispatchGen
+
+/-- one run of the client's `main` under a top-level mode and the selected entry's mode -/
+def clientRun (top entry : Mode) : MainRun := runMain top entry clientMain {}
+
+def MainRun.opens (r : MainRun) (o : Open) : Bool := r.binds.any (·.1 == o)
+
+/-- the service started on the socket bound as `o`: its first argument is the name the socket was bound to -/
+def MainRun.serviceOn (r : MainRun) (o : Open) : List Svc :=
+  r.services.filter fun s => r.binds.any fun b => b.1 == o && s.args.head? == some b.2
+
+def MainStep.atoms : MainStep → List (Origin × String × Pred)
+  | .guarded c _ _ => c.atoms
+  | .plain _ => []
+
+theorem forall_mode₂ {P : Mode → Mode → Bool} (h : Mode.all.all (fun a => Mode.all.all (P a)) = true) (a b : Mode) :
+    P a b = true :=
+  List.all_eq_true.mp (List.all_eq_true.mp h a (Mode.mem_all a)) b (Mode.mem_all b)
+
+end Octo.DispatchGen
